@@ -233,7 +233,7 @@ mutual
       | some mt =>
         match fromElement F X cfg I mt c with
         | .ok v =>
-          if childAttrCrash X fields c.attrs then .crash "AttributeError".toList.asString
+          if childAttrCrash X fields c.attrs then .crash "AttributeError"
           else childLoop F X cfg I fields cs (if mt.occ.repeated then stAppend st c.name v else stSet st c.name v)
         | .fault => .fault
         | .crash e => .crash e
@@ -332,8 +332,16 @@ mutual
   def norm (t : Ty) : Val → Val
     | .list vs =>
       if t.occ.repeated then (match vs with | [] => .none | _ => .list (normItems t vs))
-      else normOne t (.list vs)
-    | v => if t.occ.repeated then v else normOne t v
+      else (match t with
+            | .arr _ elem _ => .list (normItems elem vs)
+            | _ => .list vs)
+    | .bytes [] => if t.occ.repeated then .bytes [] else .none
+    | .obj cls vs =>
+      if t.occ.repeated then .obj cls vs
+      else (match t with
+            | .obj _ _ _ fields _ => .obj cls (normFields fields vs)
+            | _ => .obj cls vs)
+    | v => v
 
   /-- one occurrence: an empty byte string is `None` -/
   def normOne (t : Ty) : Val → Val
